@@ -31,6 +31,8 @@ pub enum End {
     Finish,
     Drop,
     TryFinishIntoInner,
+    /// `try_finish()` and then the value is dropped (the documented way to finish bam/bcf writers)
+    TryFinishDrop,
 }
 
 #[derive(Clone, Debug, Serialize, Deserialize)]
@@ -192,6 +194,11 @@ pub fn run_history(
                 .map_err(|e| ("write-error".to_string(), format!("try_finish failed on a fault-free sink: {e}")))?;
             let _ = w.into_inner();
         }
+        End::TryFinishDrop => {
+            w.try_finish()
+                .map_err(|e| ("write-error".to_string(), format!("try_finish failed on a fault-free sink: {e}")))?;
+            drop(w);
+        }
     }
     let c = sink.counters();
     Ok(HistoryResult {
@@ -283,6 +290,7 @@ impl C01 {
             End::Finish => End::Drop,
             End::Drop => End::Finish,
             End::TryFinishIntoInner => End::Drop,
+            End::TryFinishDrop => End::Finish,
         };
         match catch(|| run_history(plan.level, &data, &plan.ops, other, WritePlan::plain())) {
             Ok(Ok(r2)) => {
@@ -358,7 +366,7 @@ impl Check for C01 {
             0 => None,
             n => Some(((n - 1) % 10) as u8),
         };
-        let end = *rng.pick(&[End::Finish, End::Drop, End::Drop, End::TryFinishIntoInner]);
+        let end = *rng.pick(&[End::Finish, End::Drop, End::Drop, End::TryFinishIntoInner, End::TryFinishDrop]);
         let plan = Plan {
             kind: "bgzf-writer".into(),
             level,
